@@ -352,6 +352,7 @@ def prepare(tier):
         if "edges" in c and "shape" not in c and 2 <= len(c["edges"]) <= 5 and c.get("n", 9) <= 4:
             used.append(dict(c, grown=1))
             used.append(dict(c, grown=len(c["edges"]) - 1))
+            used.append(dict(c, grown=len(c["edges"])))  # fully built, then used - also by calls that are refused -, then used again
     _CASES = base_cases + used + scale_cases(tier)
     return _CASES
 
